@@ -112,7 +112,8 @@ pub fn run_sess(tr: &mut Trace, run: u64, seed: u64, prof: SProfile) -> SessStat
         SProfile::Handshake => "handshake", SProfile::Life => "life", SProfile::Timeout => "timeout", SProfile::Amp => "amp", SProfile::Idle => "idle", SProfile::Flush => "flush" },
         "max_active": max_active.min(100000), "max_total": max_total.min(100000), "herr": herr, "nclients": nclients, "nraw": nraw, "lossfree": lossfree, "steady": steady,
         "server": {"timeout": scfg_ep.active_timeout_ms, "keepalive": if scfg_ep.keepalive { scfg_ep.keepalive_interval_ms as i64 } else { -1 },
-                   "max_packet_size": scfg_ep.max_packet_size.min(2_000_000_000), "max_receive_alloc": scfg_ep.max_receive_alloc.min(2_000_000_000)},
+                   "max_packet_size": scfg_ep.max_packet_size.min(2_000_000_000), "max_receive_alloc": scfg_ep.max_receive_alloc.min(2_000_000_000),
+                   "max_send_rate": scfg_ep.max_send_rate.min(2_000_000_000), "max_receive_rate": scfg_ep.max_receive_rate.min(2_000_000_000)},
         "clients": ccfgs, "latency": latency, "cadence": cadence}));
 
     // schedule of connect times
@@ -174,7 +175,9 @@ pub fn run_sess(tr: &mut Trace, run: u64, seed: u64, prof: SProfile) -> SessStat
                     if prof == SProfile::Flush && flushed[i] && from_server == closer_is_server[i] {
                         continue;
                     }
-                    let maxp = s.slots[i].cfg.max_packet_size.min(scfg_ep.max_packet_size).min(20000);
+                    // a sender may submit packets up to its OWN max_packet_size (a successful handshake guarantees that the
+                    // peer's receive allocation covers it); the peer's max_packet_size says nothing about this direction
+                    let maxp = (if from_server { scfg_ep.max_packet_size } else { s.slots[i].cfg.max_packet_size }).min(20000);
                     let len = (if prof == SProfile::Flush { *r.pick(&[4usize, 50, 1000, 1449, 3000]) } else { *r.pick(&[4usize, 50, 1000, 1448, 1449, 5000, 20000]) }).min(maxp);
                     let mode = *r.pick(&[SendMode::TimeSensitive, SendMode::Unreliable, SendMode::Persistent, SendMode::Reliable, SendMode::Reliable]);
                     s.app_send(tr, from_server, i, r.below(4) as usize, mode, len);
@@ -185,9 +188,10 @@ pub fn run_sess(tr: &mut Trace, run: u64, seed: u64, prof: SProfile) -> SessStat
                 let from_server = closer_is_server[i];
                 let n = r.range(1, 5);
                 for _ in 0..n {
-                    let maxp = s.slots[i].cfg.max_packet_size.min(scfg_ep.max_packet_size);
-                    let len = (*r.pick(&[1449usize, 3000, 6000, 20000, 50])).min(maxp);
-                    s.app_send(tr, from_server, i, r.below(3) as usize, if r.chance(3, 4) { SendMode::Reliable } else { SendMode::Persistent }, len);
+                    let maxp = if from_server { scfg_ep.max_packet_size } else { s.slots[i].cfg.max_packet_size };
+                    // (empty and tiny packets too: they occupy a packet id and a fragment but no bytes of the send buffer)
+                    let len = (*r.pick(&[1449usize, 3000, 6000, 20000, 50, 0, 0, 1])).min(maxp);
+                    s.app_send(tr, from_server, i, r.below(3) as usize, if len < 4 || r.chance(3, 4) { SendMode::Reliable } else { SendMode::Persistent }, len);
                 }
                 s.app_disconnect(tr, from_server, i, false);
             }
@@ -206,6 +210,11 @@ pub fn run_sess(tr: &mut Trace, run: u64, seed: u64, prof: SProfile) -> SessStat
             }
         }
 
+        // amplification probe: a spoofable address opens a handshake with one full-size SYN and then sends a burst of
+        // one kind of small frame; whatever the server answers to each of them adds up (C18)
+        if prof == SProfile::Amp && nraw > 0 && r.chance(1, 40) {
+            amp_flood(&mut s, tr, &mut r, nraw);
+        }
         // forged and replayed frames
         if r.chance(p_forge, 100) {
             forge_something(&mut s, tr, &mut r, nclients, nraw, &archive);
@@ -292,6 +301,43 @@ pub fn run_sess(tr: &mut Trace, run: u64, seed: u64, prof: SProfile) -> SessStat
     }
     tr.line(json!({"ev": "End", "run": run, "dead": s.dead, "calls": s.calls}));
     SessStats { wire: s.wire_idx, dead: s.dead }
+}
+
+fn amp_flood(s: &mut Sess, tr: &mut Trace, r: &mut Rng, nraw: usize) {
+    let k = r.below(nraw as u64) as usize;
+    let nonce = r.next() as u32;
+    if r.chance(3, 4) {
+        s.inject_raw(tr, k, syn_bytes(3, nonce, 2_000_000, *r.pick(&[3000u32, 100_000, 1_000_000]), 1_000_000));
+        s.step_server(tr);
+    }
+    let kind = r.below(12);
+    let n = r.range(60, 400);
+    for j in 0..n {
+        if s.dead {
+            return;
+        }
+        let bytes: Vec<u8> = match kind {
+            0 => uv::Frame::HandshakeAckFrame(uv::HandshakeAckFrame { nonce_ack: r.next() as u32 }).write().to_vec(),
+            1 => uv::Frame::HandshakeAckFrame(uv::HandshakeAckFrame { nonce_ack: nonce }).write().to_vec(),
+            2 => uv::Frame::HandshakeSynAckFrame(uv::HandshakeSynAckFrame { nonce_ack: r.next() as u32, nonce: r.next() as u32, max_receive_rate: 2_000_000, max_packet_size: 1_000_000, max_receive_alloc: 1_000_000 }).write().to_vec(),
+            3 => uv::Frame::HandshakeErrorFrame(uv::HandshakeErrorFrame { nonce_ack: r.next() as u32, error: uv::HandshakeErrorType::Config }).write().to_vec(),
+            4 => uv::Frame::DisconnectFrame(uv::DisconnectFrame {}).write().to_vec(),
+            5 => uv::Frame::DisconnectAckFrame(uv::DisconnectAckFrame {}).write().to_vec(),
+            6 => uv::Frame::SyncFrame(uv::SyncFrame { next_frame_id: Some(r.next() as u32), next_packet_id: None }).write().to_vec(),
+            7 => uv::Frame::AckFrame(uv::AckFrame { frame_window_base_id: r.next() as u32, packet_window_base_id: 0, frame_acks: vec![] }).write().to_vec(),
+            8 => uv::Frame::DataFrame(uv::DataFrame { sequence_id: r.next() as u32, nonce: false, datagrams: vec![] }).write().to_vec(),
+            9 => { let mut b = syn_bytes(3, r.next() as u32, 2_000_000, 1_000_000, 1_000_000); b.truncate(*r.pick(&[22usize, 30, 100])); let m = b.len();
+                   let crc = uv::crc_compute(&b[..m - 4]); b[m - 4] = (crc >> 24) as u8; b[m - 3] = (crc >> 16) as u8; b[m - 2] = (crc >> 8) as u8; b[m - 1] = crc as u8; b }
+            10 => syn_bytes(*r.pick(&[0u8, 2, 4]), r.next() as u32, 2_000_000, 1_000_000, 1_000_000)[..].to_vec(),
+            _ => (0..r.range(1, 12)).map(|_| r.next() as u8).collect(),
+        };
+        s.inject_raw(tr, k, bytes);
+        // a library-owned socket is never handed more than a few dozen datagrams between two steps
+        if j % 40 == 39 {
+            s.step_server(tr);
+        }
+    }
+    s.step_server(tr);
 }
 
 fn forge_something(s: &mut Sess, tr: &mut Trace, r: &mut Rng, nclients: usize, nraw: usize, archive: &Vec<(usize, bool, Vec<u8>)>) {
